@@ -1,7 +1,7 @@
 //! C09 — run(): shape, chain order, burn-in discard and continuation are exact.
 
 use super::*;
-use crate::props::c10::{check_counting_array, sim_failure_violation};
+use crate::props::c10::sim_failure_violation;
 use crate::stubs::*;
 use mcmc_sim::sim::run_sim;
 use mini_mcmc::core::ChainRunner;
@@ -24,12 +24,14 @@ fn run_stub<T: Cell + ndarray::LinalgScalar + PartialEq + Send + num_traits::ToP
     let calls: Vec<(usize, usize)> = params["calls"].as_array().unwrap().iter().map(|c| (c[0].as_u64().unwrap() as usize, c[1].as_u64().unwrap() as usize)).collect();
     let inner = pu(params, "inner_points") as u32;
     let real_pool = pb(params, "real_rayon");
+    let special = params.get("special").and_then(|v| v.as_bool()).unwrap_or(false);
     let body = {
         let calls = calls.clone();
         move || {
             let mut s = CountSampler::<T>::new(nc, dim);
             for c in s.chains.iter_mut() {
                 c.inner_points = inner;
+                c.special = special;
             }
             let mut outs = vec![];
             for (n_collect, n_discard) in &calls {
@@ -73,7 +75,7 @@ fn run_stub<T: Cell + ndarray::LinalgScalar + PartialEq + Send + num_traits::ToP
         o.work += (nc * (n_collect + n_discard)) as u64;
         match r {
             Err(e) => o.violate("run_err", "ChainRunner::run:Err", format!("call {ci}: {e}")),
-            Ok(arr) => check_counting_array(&mut o, arr, nc, *n_collect, *n_discard, dim, before, "ChainRunner::run"),
+            Ok(arr) => crate::props::c10::check_counting_array_sp(&mut o, arr, nc, *n_collect, *n_discard, dim, before, "ChainRunner::run", special),
         }
         before += (n_collect + n_discard) as u64;
         for (c, n) in counts.iter().enumerate() {
@@ -85,7 +87,13 @@ fn run_stub<T: Cell + ndarray::LinalgScalar + PartialEq + Send + num_traits::ToP
         // the sampler is left at the last returned state
         for (c, st) in states.iter().enumerate() {
             for j in 0..dim {
-                if st[j] != expect_cell(c as u64, before, j, dim) as f64 {
+                let mut want = expect_cell(c as u64, before, j, dim) as f64;
+                if special {
+                    if let Some(v) = special_cell(c as u64, before, j, dim).and_then(T::of_special) {
+                        want = v.back();
+                    }
+                }
+                if st[j].to_bits() != want.to_bits() && !(st[j].is_nan() && want.is_nan()) {
                     o.violate("left_state", "ChainRunner::run:left-state", format!("after call {ci} chain {c} state {st:?} is not its state after {before} transitions"));
                     break;
                 }
@@ -113,6 +121,7 @@ impl Scenario for RunStub {
             "elt": *g.pick(&["f64", "f64", "f32", "i32", "usize"]),
             "n_chains": nc, "dim": g.usize(1, 16), "calls": calls, "inner_points": g.range(0, 2),
             "real_rayon": g.bool(1, 10),
+            "special": g.bool(1, 4),
             "sim": gen_sim(g, nc + 1, false),
         })
     }
@@ -179,7 +188,9 @@ impl Scenario for RealHistory {
     }
     fn generate(&self, g: &mut Gen, _tier: Tier, _idx: u64) -> Value {
         use crate::props::c07::gen_spec;
-        let spec = gen_spec(g, crate::zoo::KINDS);
+        // the 10 ordinary kinds plus samplers whose scalar type differs from the backend float
+        let kinds: Vec<&str> = crate::zoo::KINDS.iter().copied().chain(["hmc_t32_b64", "hmc_t64_b32", "nuts_t32_b64", "nuts_t64_b32"]).collect();
+        let spec = gen_spec(g, &kinds);
         let kind = ps(&spec, "kind").to_string();
         let heavy = kind.starts_with("hmc") || kind.starts_with("nuts");
         let nuts = kind.starts_with("nuts");
